@@ -152,7 +152,7 @@ const Prelude = `(declare-datatypes ((Sl 0)) (((mk-sl (sl-id Int) (sl-off Int) (
 (declare-datatypes ((Obj 0)) (((mk-obj (o-tag Int) (o-int Int) (o-sl Sl)))))
 (define-fun nil-sl () Sl (mk-sl 0 0 0 0))
 (define-fun nil-obj () Obj (mk-obj 0 0 nil-sl))
-(define-fun sl-ok ((s Sl)) Bool (and (<= 0 (sl-id s)) (<= 0 (sl-off s)) (<= 0 (sl-len s)) (<= (sl-len s) (sl-cap s)) (<= (+ (sl-off s) (sl-cap s)) 4611686018427387904) (=> (= (sl-id s) 0) (= (sl-cap s) 0))))
+(define-fun sl-ok ((s Sl)) Bool (and (<= 0 (sl-id s)) (<= 0 (sl-off s)) (<= 0 (sl-len s)) (<= (sl-len s) (sl-cap s)) (<= (+ (sl-off s) (sl-cap s)) 281474976710656) (=> (= (sl-id s) 0) (= (sl-cap s) 0))))
 (define-fun tdiv ((x Int) (y Int)) Int (ite (>= x 0) (ite (> y 0) (div x y) (- (div x (- y)))) (ite (> y 0) (- (div (- x) y)) (div (- x) (- y)))))
 (define-fun trem ((x Int) (y Int)) Int (- x (* y (tdiv x y))))
 (define-fun wrapS ((x Int) (h Int)) Int (- (mod (+ x h) (* 2 h)) h))
